@@ -75,8 +75,11 @@ def run_steps(universe, states, rng, n_ops, prefix, ops):
     traces = []
     for k, st in enumerate(states):
         steps = []
-        for _ in range(n_ops):
-            op, a = ds.random_op(universe, rng, st, ops)
+        directed = list(st.pop('directed', [])) if isinstance(st, dict) else []
+        for _ in range(n_ops + len(directed)):
+            op, a = directed.pop() if directed else ds.random_op(universe, rng, st, ops)
+            if op not in ops:
+                continue
             w = ds.World(universe)
             w.set_state(st)
             obs = w.apply(op, a)
@@ -104,6 +107,27 @@ def random_state(universe, rng):
         st[n] = dict(k='m' if multi else 's', ph=phs, fl=fl, T=rng.choice([300, 320, 350]), P=rng.choice([100, 200, 50]),
                      pkg=pkg, price=0, cf=0, fr=n, tr=n, pr=n)
         sv[n] = ds.NOSNAP
+    if rng.random() < 0.3 and len(universe['names']) >= 3:
+        # directed: two multi-phase streams whose phase sets agree up to the case of the liquid / solid labels, the others mostly
+        # empty (single non-empty inlet paths, label interchange between property packages)
+        x, y = rng.sample(universe['names'], 2)
+        base = sorted(rng.sample(['l', 's', 'g'], rng.randint(1, 3)))
+        for n in (x, y):
+            chems = [c for c in universe['pkgs'][universe['pkg'][n]] if c <= nc]
+            phs = sorted({(p.upper() if p != 'g' and rng.random() < 0.5 else p) for p in base})
+            st[n]['k'], st[n]['ph'] = 'm', phs
+            st[n]['fl'] = {p: [0 if (c not in chems or rng.random() < 0.3) else 4 * rng.randint(1, 6) for c in range(1, nc + 1)] for p in phs}
+        others = [n for n in universe['names'] if n not in (x, y)]
+        for n in others:
+            if rng.random() < 0.7:
+                st[n]['fl'] = {p: [0] * nc for p in st[n]['ph']}
+        directed = []
+        for r, i in ((x, y), (y, x)):
+            for eb in (True, False):
+                directed.append(('mix_from', dict(r=r, ins=[i] + rng.sample(others, rng.randint(0, 1)), eb=eb)))
+            directed.append(('copy_like', dict(d=r, x=i)))
+            directed.append(('separate_out', dict(x=r, y=i)))
+        return dict(st=st, sv=sv, directed=directed)
     return dict(st=st, sv=sv)
 
 
